@@ -235,7 +235,85 @@ def plan_op(op, ctx, models, nsrc_total):
             with r.lock_write():
                 r.pack(clean_obsolete_packs=clean)
         return frozenset(), ctx.tip, run
+    if kind == "pack-hint":
+        idx = op["hint"]
+
+        def run(base):
+            r = _r.Repository.open(base)
+            with r.lock_write():
+                names = r._pack_collection.names()
+                hint = sorted({names[i % len(names)] for i in idx})
+                r.pack(hint=hint)
+        return frozenset(), ctx.tip, run
+    if kind == "resume-commit":
+        tokens = list(op["tokens"])
+        added = frozenset(rid(i) for i in range(ctx.nsrc,
+                                                ctx.nsrc + op["n"]))
+
+        def run(base):
+            r = _r.Repository.open(base)
+            r.lock_write()
+            try:
+                r.resume_write_group(tokens)
+                r.commit_write_group()
+            finally:
+                r.unlock()
+        return added, ctx.tip, run
     raise ValueError(kind)
+
+
+def suspend_groups(path, src_repo, nsrc, chunks, total):
+    """Leave one suspended write group in the repository at `path`: the
+    source revisions nsrc.. in len(chunks) suspended packs (suspend + resume
+    between chunks).  -> tokens"""
+    from breezy import repository as _r
+    from vf.lib.c06_wg import Universe
+    u = Universe(src_repo, total)
+    stores = ["texts"] + (["chk_bytes"] if u.chk else []) + [
+        "inventories", "revisions"]
+    tokens = None
+    i = nsrc
+    with src_repo.lock_read():
+        for n in chunks:
+            r = _r.Repository.open(path)
+            r.lock_write()
+            try:
+                if tokens is None:
+                    r.start_write_group()
+                else:
+                    r.resume_write_group(tokens)
+                for k in range(i, i + n):
+                    for vf in stores:
+                        keys = u.keys_for(vf, k, [])
+                        if keys:
+                            getattr(r, vf).insert_record_stream(
+                                getattr(src_repo, vf).get_record_stream(
+                                    keys, "unordered", True))
+                tokens = r.suspend_write_group()
+            finally:
+                r.unlock()
+            i += n
+    return tokens
+
+
+def vary_obsolete_dir(path, how):
+    """Pre-state variants of obsolete_packs/: 'missing' (directory removed,
+    the fallback mkdir path of _obsolete_packs), 'copy' (a live pack's files
+    are also there, as after a concurrent writer obsoleted it first)."""
+    base = os.path.join(path, ".bzr", "repository")
+    obs = os.path.join(base, "obsolete_packs")
+    if how == "missing":
+        shutil.rmtree(obs, ignore_errors=True)
+    elif how == "copy":
+        os.makedirs(obs, exist_ok=True)
+        packs = sorted(os.listdir(os.path.join(base, "packs")))
+        if packs:
+            stem = packs[0].split(".")[0]
+            for d in ("packs", "indices"):
+                for fn in os.listdir(os.path.join(base, d)):
+                    if fn.startswith(stem + "."):
+                        shutil.copy(os.path.join(base, d, fn),
+                                    os.path.join(obs, fn))
 
 
 # ------------------------------------------------------------- observation
